@@ -58,6 +58,10 @@ const (
 	// but in no committee; UnregisteredOperator has a key nobody registered.
 	NumOperators         = 8
 	UnregisteredOperator = spectypes.OperatorID(99)
+	// BadKeyOperatorA / B are REGISTERED operators whose stored public key cannot be decoded (the contract event handler
+	// stores the on-chain bytes unvalidated): base64 of something that is no PEM key / not even base64.
+	BadKeyOperatorA = spectypes.OperatorID(90)
+	BadKeyOperatorB = spectypes.OperatorID(91)
 )
 
 var Domain = qsim.Domain
@@ -195,6 +199,10 @@ func NewWorldNative(native int) *World {
 		w.Ops[id] = op
 	}
 	w.Ops[UnregisteredOperator] = newOperator(UnregisteredOperator)
+	for id, pk := range map[spectypes.OperatorID]string{BadKeyOperatorA: "bm90LWEtcGVtLWtleQ==", BadKeyOperatorB: "%%% not base64 %%%"} {
+		_, err := ns.SaveOperatorData(nil, &registrystorage.OperatorData{ID: id, PublicKey: []byte(pk), OwnerAddress: common.Address{byte(id)}})
+		mustNil(err)
+	}
 
 	w.Beacon = &Beacon{Network: beaconprotocol.NewNetwork(spectypes.PraterNetwork)}
 	w.Beacon.SetNow(w.Beacon.GetSlotStartTime(w.BaseSlot()))
